@@ -289,6 +289,18 @@ func (r *runner) evaluate(cs *Case, maxDev int) caseStats {
 	pb := r.run(mB, &cs.InB, cA.clone(), nil)
 	st.evals = 3
 
+	// what A left in the cache is still what A stored (B ran twice since then, once on a cache of its own)
+	if bad := cA.modified(); len(bad) != 0 {
+		st.outcome = "CACHED-VALUE-MODIFIED"
+		st.verdicts = append(st.verdicts, verdict{
+			sig:     cs.Family + "/cached-value-modified-after-it-was-stored",
+			summary: fmt.Sprintf("%s [%s] pair=%s: %d entries written by A changed while B was evaluated (the stored slice is still written to)", cs.Family, cs.Conf, cs.Kind, len(bad)),
+			cs:      cs,
+		})
+
+		return st
+	}
+
 	for _, x := range []*runRes{&fa, &fb, &pb} {
 		if x.maxMap > st.maxMap {
 			st.maxMap = x.maxMap
